@@ -274,6 +274,9 @@ const ALPHABET: &[&str] = &[
     ".a\\:😀b", "#😀\\:b", "#\\31 st😀",
     // the backslash itself, written as a hex escape in front of more name (same key as `.a\\b`)
     ".a\\5c b", "#i\\5C j", ".a\\5c \\5c b",
+    // an escaped punctuation character, then characters that could be hex digits, then an escaped
+    // space, all in one name
+    ".a\\:bd\\ c", "#i\\.e1\\ j",
     // no leading class / id: per-site route
     "div.c", "[c]", "*", "div", "c", "i", "[c=\".c\"]", "div#i", ":not(.c)", "*.c", "div > .c",
 ];
